@@ -407,6 +407,8 @@ static void c04_phase(int G, int k, double penCells, bool tris) {
             VisGraph vg(sc, eps[i].first, eps[i].second, penCells > 0);
             double o = vg.shortest(penCells, penCells > 0), lb = penCells > 0 ? vg.shortest(penCells, false) : o;
             if (o > 1e17) { ctx.count("no_free_path"); continue; }
+            // vacuity audit: does the penalty matter here, i.e. is the optimum under the penalty LONGER than the Euclidean shortest path (it saves a bend)?
+            if (penCells > 0) { double L0 = vg.shortest(0, false), q2 = (o - L0) / penCells; if (fabs(q2 - lround(q2)) > 1e-7) ctx.count("optimum_trades_length_for_a_bend"); }
             double len = 0; for (size_t q = 1; q < rt.size(); q++) len += hypot(rt.ps[q].x - rt.ps[q - 1].x, rt.ps[q].y - rt.ps[q - 1].y);
             double cost = len / S + penCells * (rt.size() > 2 ? rt.size() - 2 : 0);
             if (straight_blocked(sc, eps[i].first, eps[i].second)) ctx.count("nontrivial");
